@@ -33,6 +33,11 @@ def run(ctx):
     r3_r5_counts(ctx)
     r4_provenance(ctx)
     r6_bookkeeping(ctx)
+    # a file is imported through the same line reader as a string, on every call (no parsed-file cache)
+    from . import c20
+    ctx.alias = {'R4': 'R7'}
+    c20.r4_load(ctx)
+    ctx.alias = {}
 
 
 # --------------------------------------------------------------------------- R1
